@@ -146,10 +146,17 @@ def write_scenario_vcf(path, sc):
                            extra_header=sc.get("extra_header", []))
 
 
-def emit_histories(ctx, ns, depth, inits="One"):
-    """Command histories (op sequences) as behaviours of MC_VcfHistory, every length 1..depth."""
-    cfg = tlc.write_cfg(os.path.join(ctx.workdir, f"emit{ns}_{depth}.cfg"), spec="EmitSpec",
-                        consts={"NS": ns, "Faithful": "TRUE", "Depth": depth}, subst={"Inits": inits}, invariants=["Emit"])
+def hist_consts(ns, faithful="TRUE", clear_all="TRUE", depth=0, indel="{}", never="{}", snvs="{FALSE, TRUE}"):
+    return {"NS": ns, "Faithful": faithful, "ClearAll": clear_all, "Depth": depth, "IndelSites": indel, "NeverSites": never,
+            "SnvsOpts": snvs}
+
+
+def emit_histories(ctx, ns, depth, inits="One", snvs="{FALSE}"):
+    """Command histories (op sequences) as behaviours of MC_VcfHistory, every length 1..depth.
+    snvs: the values of --only-snvs the Phase action may take."""
+    tagname = "s2" if "TRUE" in snvs else "s1"
+    cfg = tlc.write_cfg(os.path.join(ctx.workdir, f"emit{ns}_{depth}_{tagname}.cfg"), spec="EmitSpec",
+                        consts=hist_consts(ns, depth=depth, snvs=snvs), subst={"Inits": inits}, invariants=["Emit"])
     hs, r = tlc.behaviours("MC_VcfHistory", cfg)
     seen, out = set(), []
     for h in hs:
@@ -169,16 +176,21 @@ HIST_INVS = ["RoundTrip", "NoStalePhase", "DecodesCleanly", "SampleClean", "TagE
 def design_mc(ctx):
     out = []
     fast = bool(os.environ.get("WV_FAST_MC"))  # development aid for mutation runs: only the cheap configuration
-    for ns, inits, what in [(2, "Small", "2 samples x 2 records (unsorted GT, homozygous site, foreign PS+PQ / HP phase)"),
-                            (1, "One", "1 sample x 3 heterozygous records (interleaved and split blocks)")]:
+    for key, ns, inits, indel, never, snvs, what in [
+            ("skips", 2, "Skips", "{2}", "{3}", "{FALSE, TRUE}",
+             "2 samples x 3 records (SNV, indel, multi-ALT record phased by another tool in PS resp. HP), with and without --only-snvs"),
+            ("small", 2, "Small", "{}", "{}", "{FALSE}",
+             "2 samples x 2 records (unsorted GT, homozygous site, foreign PS+PQ / HP phase)"),
+            ("one", 1, "One", "{2}", "{}", "{FALSE, TRUE}",
+             "1 sample x 3 heterozygous records, the middle one an indel (interleaved and split blocks, --only-snvs)")]:
         if fast and ns == 2:
             continue
-        cfg = tlc.write_cfg(os.path.join(ctx.workdir, f"hist{ns}.cfg"), spec="Spec",
-                            consts={"NS": ns, "Faithful": "TRUE", "Depth": 0}, subst={"Inits": inits},
+        cfg = tlc.write_cfg(os.path.join(ctx.workdir, f"hist_{key}.cfg"), spec="Spec",
+                            consts=hist_consts(ns, indel=indel, never=never, snvs=snvs), subst={"Inits": inits},
                             view="NoHist", invariants=HIST_INVS)
         r = tlc.model_check("MC_VcfHistory", cfg=cfg, workers=8, timeout=2400)
-        r["what"] = (f"VcfHistory, {what}: all histories of unphase / phase(tag, targets, any phasing); unphase relation, "
-                     "idempotence, U(Phase(f)) = U(f), encoder/decoder laws of C09")
+        r["what"] = (f"VcfHistory, {what}: all histories of unphase / phase(tag, targets, options, any phasing); unphase relation, "
+                     "idempotence, U(Phase(f)) = U(f), encoder/decoder laws of C09 at every record")
         out.append(r)
     return out
 
